@@ -720,6 +720,137 @@ func (st *state) reader(fn *core.Fn, depth int) {
 	if nStride == 0 {
 		c.Undecidedf("R4.defaults", "fetchCheckpoint/stride", fn.Decl.Pos(), "no pair-wise scan loop found")
 	}
+	// every pair of the reply is looked at: the order of the fields in the HGETALL reply is not
+	// fixed, so the scan may only end at the end of the reply or with an error. An exit from the scan
+	// loop (break, goto out of it, a return that is not an error return) that is guarded by nothing
+	// but tests of the field name and of errors ends the scan after some field was seen and loses the
+	// fields behind it.
+	core.Inspect(body, func(n ast.Node) bool {
+		var lbody *ast.BlockStmt
+		var loopStmt ast.Stmt
+		switch lp := n.(type) {
+		case *ast.ForStmt:
+			lbody, loopStmt = lp.Body, lp
+		case *ast.RangeStmt:
+			lbody, loopStmt = lp.Body, lp
+		default:
+			return true
+		}
+		if !mentionsValue(lbody) || !mentionsName(lbody) {
+			return true
+		}
+		label := ""
+		for _, anc := range core.PathTo(body, loopStmt) {
+			if ls, ok := anc.(*ast.LabeledStmt); ok && ls.Stmt == loopStmt {
+				label = ls.Label.Name
+			}
+		}
+		labelsInside := map[string]bool{}
+		ast.Inspect(lbody, func(m ast.Node) bool {
+			if ls, ok := m.(*ast.LabeledStmt); ok {
+				labelsInside[ls.Label.Name] = true
+			}
+			return true
+		})
+		type exitAt struct {
+			stmt   ast.Stmt
+			guards []ast.Expr
+		}
+		var exits []exitAt
+		var walk func(m ast.Node, guards []ast.Expr, brk bool)
+		walk = func(m ast.Node, guards []ast.Expr, brk bool) {
+			switch v := m.(type) {
+			case nil:
+			case *ast.BlockStmt:
+				for _, st := range v.List {
+					walk(st, guards, brk)
+				}
+			case *ast.IfStmt:
+				g2 := append(append([]ast.Expr(nil), guards...), v.Cond)
+				walk(v.Body, g2, brk)
+				if v.Else != nil {
+					walk(v.Else, g2, brk)
+				}
+			case *ast.SwitchStmt:
+				for _, cl := range v.Body.List {
+					cc := cl.(*ast.CaseClause)
+					g2 := append([]ast.Expr(nil), guards...)
+					if v.Tag != nil {
+						g2 = append(g2, v.Tag)
+					}
+					g2 = append(g2, cc.List...)
+					for _, st := range cc.Body {
+						walk(st, g2, false) // an unlabelled break leaves the switch only
+					}
+				}
+			case *ast.TypeSwitchStmt, *ast.SelectStmt:
+				// exits inside are not followed: treated as guarded by something unknown
+				ast.Inspect(v, func(k ast.Node) bool {
+					if r, ok := k.(*ast.ReturnStmt); ok {
+						exits = append(exits, exitAt{r, append(append([]ast.Expr(nil), guards...), nil)})
+					}
+					return true
+				})
+			case *ast.ForStmt:
+				walk(v.Body, append(append([]ast.Expr(nil), guards...), v.Cond), false)
+			case *ast.RangeStmt:
+				walk(v.Body, append(append([]ast.Expr(nil), guards...), v.X), false)
+			case *ast.LabeledStmt:
+				walk(v.Stmt, guards, brk)
+			case *ast.BranchStmt:
+				switch {
+				case v.Tok == token.BREAK && (v.Label == nil && brk || v.Label != nil && v.Label.Name == label && label != ""):
+					exits = append(exits, exitAt{v, guards})
+				case v.Tok == token.GOTO && v.Label != nil && !labelsInside[v.Label.Name] && !strings.HasPrefix(v.Label.Name, "inl$") && !strings.HasPrefix(v.Label.Name, "end$"):
+					exits = append(exits, exitAt{v, guards})
+				}
+			case *ast.ReturnStmt:
+				if cfgq.ClassifyReturn(info, body, v) != cfgq.RetErr {
+					exits = append(exits, exitAt{v, guards})
+				}
+			}
+		}
+		walk(lbody, nil, true)
+		plain := func(e ast.Expr) bool { // a test of the field name or of an error
+			if e == nil {
+				return false
+			}
+			if mentionsName(e) {
+				return true
+			}
+			okErr := false
+			ast.Inspect(e, func(k ast.Node) bool {
+				if be, ok := k.(*ast.BinaryExpr); ok && (be.Op == token.NEQ || be.Op == token.EQL) && (core.IsNil(info, be.X) || core.IsNil(info, be.Y)) {
+					okErr = true
+				}
+				return true
+			})
+			return okErr
+		}
+		bad, unsure := ast.Stmt(nil), ast.Stmt(nil)
+		for _, ex := range exits {
+			allPlain := true
+			for _, gd := range ex.guards {
+				if !plain(gd) {
+					allPlain = false
+				}
+			}
+			if allPlain {
+				bad = ex.stmt
+			} else if unsure == nil {
+				unsure = ex.stmt
+			}
+		}
+		switch {
+		case bad != nil:
+			c.Failf("R4.defaults", "fetchCheckpoint/every-pair", bad.Pos(), "the scan over the HGETALL reply ends at `%s` as soon as one field of this source has been handled: the fields are not returned in a fixed order (hashtable encoding, proxies), a run id or version that follows is not read and the checkpoint is taken for one without run id ('?', full sync) or of version 0 (refused)", c.Src(bad))
+		case unsure != nil:
+			c.Undecidedf("R4.defaults", "fetchCheckpoint/every-pair", unsure.Pos(), "the scan over the reply can end early at `%s`; whether every field of this source has been read by then is not analysed", c.Src(unsure))
+		default:
+			c.Okf("R4.defaults", "fetchCheckpoint/every-pair", loopStmt.Pos(), "the scan ends only at the end of the reply or with an error")
+		}
+		return false
+	})
 
 	// every test on the field name, with both polarities
 	type test struct {
